@@ -37,3 +37,5 @@ impl Sponge {
     #[verifier::external_body]
     pub fn clone(&self) -> (r: Sponge) ensures r.st@ == self.st@ { unimplemented!() }
 }
+impl Absorb for &Vec<Fr> { open spec fn abs(&self) -> AbsData { AbsData::Field(fviews((**self)@)) } }
+impl Absorb for &Vec<u8> { open spec fn abs(&self) -> AbsData { AbsData::Bytes((**self)@) } }
